@@ -80,7 +80,9 @@ def judgeC15 : P Verdict := do
   let setCheck := op != "remove_rows" && op != "normalize"
   for (a, b) in (if setCheck then rowsOf p else []) do
     match impliedBy q a b with
-    | .no x => return .propfail s!"[C15] {op}: point {showVec x} satisfies the result but violates the dropped row {showVec a} <= {b}"
+    | .no x =>
+      let tiny := op == "remove_duplicate_rows" && a.all (fun v => absQ v ≤ mkRat 1 (2 ^ 52))
+      return .propfail s!"[C15] {op}: point {showVec x} satisfies the result but violates the dropped row {showVec a} <= {b}{if tiny then " (every coefficient of the dropped row is below f64::EPSILON)" else ""}"
     | _ => pure ()
   for (a, b) in (if setCheck then rowsOf q else []) do
     match impliedBy p a b with
